@@ -488,6 +488,34 @@ func (e *sumEval) loopSum(ph *ssa.Phi) (*sumSE, string) {
 		}
 		iff, isIf := d.p.Instrs[len(d.p.Instrs)-1].(*ssa.If)
 		if !isIf || !d.p.Dominates(o.p) || d.p == o.p {
+			// if / else with an addition on each side: the two latches hang under one branch of the body
+			if dd := d.p.Idom(); dd != nil && dd == o.p.Idom() && loopBodyContains(h, dd) {
+				if bif, ok := dd.Instrs[len(dd.Instrs)-1].(*ssa.If); ok && dd.Succs[0] != dd.Succs[1] {
+					var onTrue, onFalse *sumSE
+					for _, l := range []latch{d, o} {
+						switch {
+						case dd.Succs[0].Dominates(l.p) && !dd.Succs[1].Dominates(l.p):
+							onTrue = l.inc
+						case dd.Succs[1].Dominates(l.p) && !dd.Succs[0].Dominates(l.p):
+							onFalse = l.inc
+						}
+					}
+					if onTrue != nil && onFalse != nil {
+						cond, flip := canonAtom(e.w.term(bif.Cond))
+						if flip {
+							onTrue, onFalse = onFalse, onTrue
+						}
+						inc = newSE()
+						inc.sels = []sumSel{{cond, onTrue, onFalse}}
+						r := newSE()
+						r.sums = []sumLoopTerm{{coll, inc}}
+						if init == nil {
+							return nil, "malformed loop"
+						}
+						return init.add(r, 1), ""
+					}
+				}
+			}
 			return nil, "the loop adds different amounts on different ways round"
 		}
 		a, b := d.inc, o.inc // a: straight back to the header from the branch
